@@ -151,6 +151,9 @@ def hashed(ctx, p):
         H.add_nodes_from(labs)
         for j, e in enumerate(edges):
             mem = [labs[i] for i in e]
+            if p.get("mixed_types"):
+                # the same node named by equal objects of different numeric types
+                mem = [(np.int64(v) if (k + j) % 2 else (float(v) if (k + j) % 3 == 0 and p["mixed_types"] > 1 else v)) for k, v in enumerate(mem)]
             if p["orders"][j % len(p["orders"])]:
                 mem.reverse()
             H.add_edge(mem, idx=j)
@@ -158,6 +161,60 @@ def hashed(ctx, p):
         ctx.info["op"] = "simpliciality (real hashing)"
         ctx.info["args"] = {"labels": labs, "min_size": min_size}
         _check(ctx, H, shape, min_size, True, _is_closed(shape))
+
+
+@harness("C15.history", raises_are_violations=True)
+def history(ctx, p):
+    """The measures are computed from the CURRENT structure: measure, replace one
+    edge on the same object (node and edge counts unchanged), measure again."""
+    s1, s2 = _shape(p["shape"]), _shape(p["shape2"])
+    N, M, edges = s1
+    nl = [ctx.label(f"n{i}", group="n") for i in range(N)]
+    el = [ctx.label(f"e{j}", group="e") for j in range(M)]
+    ctx.distinct(nl)
+    ctx.distinct(el)
+    H = xgi.Hypergraph()
+    _build(H, nl, el, edges, [0])
+    H._edge_uid = ctx.counter(0)
+    min_size = 1 + ctx.choose("min_size", 3)
+    ctx.info["op"] = "simpliciality after an edit"
+    ctx.info["args"] = {"min_size": min_size, "first": p["first"], "how": p["how"]}
+    with warnings.catch_warnings():
+        warnings.simplefilter("ignore")
+        # any one of the measures may have been asked for before the edit
+        first = {"sed": xgi.simplicial_edit_distance, "mfed": xgi.mean_face_edit_distance, "sf": xgi.simplicial_fraction,
+                 "es": xgi.edit_simpliciality, "fes": xgi.face_edit_simpliciality}[p["first"]]
+        first(H, min_size, True)
+        j = p["j"]
+        new = [nl[i] for i in s2[2][j]]
+        if p["how"] == "replace":
+            H.remove_edge(el[j])
+            H.add_edge(new, idx=el[j])
+        else:  # member-wise
+            for n in list(H._edge[el[j]]):
+                if not any(nets.same(n, x) for x in new):
+                    H.remove_node_from_edge(el[j], n)
+            for n in new:
+                H.add_node_to_edge(el[j], n)
+    # the edge order of s2 is s1's with edge j possibly moved to the end: the oracle works on sets
+    _check(ctx, H, s2, min_size, True, _is_closed(s2))
+
+
+def _edits(s, ok):
+    """(j, s2): every replacement of one edge by another non-empty node set keeping the shape admissible."""
+    N, M, edges = _shape(s)
+    out = []
+    for j in range(M):
+        for k in range(1, N + 1):
+            for sub in itertools.combinations(range(N), k):
+                if tuple(sub) == tuple(sorted(edges[j])):
+                    continue
+                e2 = list(edges)
+                e2[j] = tuple(sub)
+                s2 = (N, M, tuple(e2))
+                if ok(s2):
+                    out.append((j, s2))
+    return out
 
 
 def spec(tier, seed):
@@ -177,13 +234,24 @@ def spec(tier, seed):
     for s in hsh:
         for orders in ([0], [0, 1], [1, 0]):
             units.append(("C15.hash", {"shape": s, "orders": orders, "min_size": 2}))
+    for s in hsh:
+        units.append(("C15.hash", {"shape": s, "orders": [0, 1], "min_size": 2, "mixed_types": 1}))
+        units.append(("C15.hash", {"shape": s, "orders": [0], "min_size": 2, "mixed_types": 2}))
+    hist = [s for s in (shapes.shapes_H(3, 2) + shapes.shapes_H(3, 3) if tier == "quick" else shapes.shapes_H(3, 3) + shapes.shapes_H(4, 3)) if ok(s) and max(len(e) for e in s[2]) >= 3]
+    firsts = ["sed", "mfed", "sf", "es", "fes"]
+    k = 0
+    for s in hist:
+        for j, s2 in _edits(s, ok):
+            k += 1
+            units.append(("C15.history", {"shape": s, "shape2": s2, "j": j, "first": firsts[k % 5], "how": "replace" if k % 2 else "memberwise"}))
     return {
         "units": units,
         "caps": {"paths": 100000, "wall": 900},
         "level": "model_checking",
         "bounds": {"shapes": f"{len(shp)} hypergraph shapes without repeated or empty edges (N<=4, M<=3 quick); closed shapes among them give the '= 1' clause",
                    "labels": "unbounded orderable integers (every label order through the Trie's sort); second harness: labels in [-3,3] exhaustively under real hashing",
-                   "parameters": "min_size in 1..4, exclude_min_size both, normalize both; member listing orders: as given / alternately reversed"},
+                   "parameters": "min_size in 1..4, exclude_min_size both, normalize both; member listing orders: as given / alternately reversed",
+                   "histories": "measure, replace one edge on the same object (same node and edge counts), measure again; equal labels of different numeric types (int / numpy.int64 / float) in the real-hashing harness"},
         "assumptions": ["oracle: exhaustive subset enumeration on the concrete incidence shape", "floats compared with tolerance 1e-9"],
         "outside": ["hypergraphs with repeated edges (the property excludes them)", "non-orderable label mixes"],
     }
